@@ -214,16 +214,33 @@ impl<D: DataMut> GGLWECompressed<D> {
 
 impl<D: DataMut> ReaderFrom for GGLWECompressed<D> {
     fn read_from<R: std::io::Read>(&mut self, reader: &mut R) -> std::io::Result<()> {
-        self.k = TorusPrecision(reader.read_u32::<LittleEndian>()?);
-        self.base2k = Base2K(reader.read_u32::<LittleEndian>()?);
-        self.dsize = Dsize(reader.read_u32::<LittleEndian>()?);
-        self.rank_out = Rank(reader.read_u32::<LittleEndian>()?);
+        let k = TorusPrecision(reader.read_u32::<LittleEndian>()?);
+        let base2k = Base2K(reader.read_u32::<LittleEndian>()?);
+        let dsize = Dsize(reader.read_u32::<LittleEndian>()?);
+        let rank_out = Rank(reader.read_u32::<LittleEndian>()?);
         let seed_len: u32 = reader.read_u32::<LittleEndian>()?;
-        self.seed = vec![[0u8; 32]; seed_len as usize];
-        for s in &mut self.seed {
-            reader.read_exact(s)?;
+        // The count comes from an untrusted stream: grow the vector only as seeds actually arrive.
+        let mut seed: Vec<[u8; 32]> = Vec::new();
+        for _ in 0..seed_len {
+            let mut s = [0u8; 32];
+            reader.read_exact(&mut s)?;
+            seed.push(s);
         }
-        self.data.read_from(reader)
+        self.data.read_from_validated(reader, |rows, cols_in| {
+            if rows.checked_mul(cols_in) != Some(seed.len()) {
+                return Err(std::io::Error::new(
+                    std::io::ErrorKind::InvalidData,
+                    format!("seed count {} != rows={rows} * cols_in={cols_in}", seed.len()),
+                ));
+            }
+            Ok(())
+        })?;
+        self.k = k;
+        self.base2k = base2k;
+        self.dsize = dsize;
+        self.rank_out = rank_out;
+        self.seed = seed;
+        Ok(())
     }
 }
 
